@@ -17,6 +17,8 @@ ENGINES["C17"] = "engine_stats"
 ENGINES["C09"] = "engine_pcm"
 for _p in ("C08", "C14", "C19"):
     ENGINES[_p] = "engine_session"
+ENGINES["C07"] = "engine_twin"
+ENGINES["C18"] = "engine_twin"
 ENGINES["C10"] = "engine_sizer"
 ENGINES["C11"] = "engine_sizer"
 
